@@ -484,15 +484,18 @@ def __saturation_build__(
 
     list_to_be_treated: Deque[Tuple[Tuple[Type, S], T, List[Tuple[Type, S]]]] = deque()
     list_to_be_treated.append(((return_type, init[0]), init[1], []))
+    visited: Set[Tuple[Tuple[Type, Tuple[S, T]], Tuple[Tuple[Type, S], ...]]] = set()
 
     while list_to_be_treated:
         (current_type, non_terminal), current, stack = list_to_be_treated.pop()
         rule = current_type, (non_terminal, current)
-        # Create rule if non existent
-        if rule not in rules:
-            rules[rule] = {}
-        else:
+        # The derivations that follow depend on the pending stack as well:
+        # a non-terminal reached again with another stack must be continued
+        configuration = (rule, tuple(stack))
+        if configuration in visited:
             continue
+        visited.add(configuration)
+        rules[rule] = {}
         # Try to add variables rules
         for i in range(len(args)):
             if current_type == args[i]:
